@@ -112,8 +112,11 @@ ReadProbeLine(p) ==
         lineIdx |-> lineIdx, lineEnd |-> lineEnd, lineEndIdx |-> lineEndIdx]
 
 \* readQLogTimestamp:425-445 on the bytes a..b-1.  A whole line yields its
-\* timestamp.  A fragment yields 0 ("couldn't find timestamp") -- see the
-\* note on fragments at the end of the module.
+\* timestamp -- WHEREVER the "T" property sits in the record and however the
+\* time is spelled (QLogFile!Layouts: after a client address of any length,
+\* after long properties, last; UTC or a numeric zone, with or without
+\* nanoseconds): the function searches the whole string.  A fragment yields 0
+\* ("couldn't find timestamp") -- see the note on fragments at the end.
 TimestampOf(a, b) == LET k == WholeLine(a, b) IN IF k = 0 THEN 0 ELSE tss[k]
 
 \* ------------------------------------------------------------------ replies
@@ -240,7 +243,16 @@ Opened == /\ position = 0 /\ bufferStart = 0 /\ bufNil = TRUE
 (* Class of one ReadNext at position pos with buffer state (bn, b0):       *)
 (*   kind  "nil" buffer absent (first read after a seek) | "reinit" | "keep"*)
 (*   trig  reinit only: how far pos was from the old buffer start:         *)
-(*         "0" on it, "1", "mid", "top" = MaxEntry-1                       *)
+(*         "0" on it, "1", "more"                                          *)
+(*   ol    reinit only: where the line STARTS relative to the old buffer   *)
+(*         start -- "<-1", "-1" (its first byte is the one byte that the   *)
+(*         old buffer lacks), "0" (it starts with the buffer, the newline  *)
+(*         before it is just outside), "1" (that newline is the buffer's   *)
+(*         first byte), ">1".  This is the component that tells whether    *)
+(*         the old buffer would still have held the line: the re-init rule *)
+(*         is exactly at its limit for a line of MaxEntry-1 bytes that     *)
+(*         ends MaxEntry-2 ("-1") or MaxEntry-1 ("0") bytes into the old   *)
+(*         buffer.                                                         *)
 (*   rel   keep only: pos - bufferStart is "=" MaxEntry (the least that    *)
 (*         avoids a re-init) or ">"                                        *)
 (*   len   returned line: "max" = MaxEntry-1, "sub" = MaxEntry-2, "small"  *)
@@ -253,6 +265,7 @@ Opened == /\ position = 0 /\ bufferStart = 0 /\ bufNil = TRUE
 IsLF(o) == o >= 0 /\ NLBelow(o + 1) > NLBelow(o)
 LenClass(l) == IF l = MaxEntry - 1 THEN "max" ELSE IF l = MaxEntry - 2 THEN "sub" ELSE "small"
 OffClass(d) == IF d = 0 THEN "0" ELSE IF d = 1 THEN "1" ELSE "2+"
+OlClass(d) == IF d < -1 THEN "<-1" ELSE IF d = -1 THEN "-1" ELSE IF d = 0 THEN "0" ELSE IF d = 1 THEN "1" ELSE ">1"
 OnClass(b) == IF b = 0 THEN "zero" ELSE IF IsLF(b) THEN "lf" ELSE IF IsLF(b + 1) THEN "last"
               ELSE IF IsLF(b - 1) THEN "first" ELSE "inside"
 
@@ -262,7 +275,8 @@ ReadClass(pos, bn, b0) ==
         t0   == pos - b0
     IN [kind |-> kind,
         trig |-> IF kind # "reinit" THEN "-"
-                 ELSE IF t0 = 0 THEN "0" ELSE IF t0 = 1 THEN "1" ELSE IF t0 = MaxEntry - 1 THEN "top" ELSE "mid",
+                 ELSE IF t0 = 0 THEN "0" ELSE IF t0 = 1 THEN "1" ELSE "more",
+        ol   |-> IF kind # "reinit" THEN "-" ELSE OlClass(r.lineIdx - b0),
         rel  |-> IF kind # "keep" \/ r.bs = 0 THEN "-" ELSE IF pos - r.bs = MaxEntry THEN "=" ELSE ">",
         len  |-> LenClass(pos - r.lineIdx),
         lf   |-> IF r.bs = 0 THEN (IF r.lineIdx = 0 THEN "bof" ELSE "in") ELSE OffClass(r.lineIdx - 1 - r.bs),
